@@ -4,6 +4,7 @@ import (
 	"fmt"
 	"net/url"
 	"os"
+	"reflect"
 	"regexp"
 	"sort"
 	"strings"
@@ -460,7 +461,9 @@ func checkExpand(c Case) Result {
 		res.Finding = vk.F("parse-panic", "parsing the expanded spec panics: %s", pb.panicked)
 	case pb.err != nil:
 		cl := "expand-output-rejected"
-		if strings.Contains(pb.err.Error(), "invalid name:") {
+		if bad := badComponentNames(spec2); len(bad) > 0 {
+			// decided on the expanded document, not on the wording of the refusal: Expand created a
+			// component whose name is outside the character set OpenAPI allows for component names
 			cl = "expand-component-name-from-escaped-pointer"
 		}
 		res.Finding = vk.F(cl, "the expanded spec does not parse back: %s", stripPos(pb.err))
@@ -661,4 +664,29 @@ func checkCycle(c Case) Result {
 		return harness("unknown expectation %q", ex.Outcome)
 	}
 	return res
+}
+
+var componentNameRe = regexp.MustCompile(`^[a-zA-Z0-9.\-_]+$`)
+
+// badComponentNames lists the keys of the component maps of a document that OpenAPI does not allow
+// as component names.
+func badComponentNames(spec *ogen.Spec) []string {
+	if spec == nil || spec.Components == nil {
+		return nil
+	}
+	var out []string
+	v := reflect.ValueOf(spec.Components).Elem()
+	for i := 0; i < v.NumField(); i++ {
+		f := v.Field(i)
+		if f.Kind() != reflect.Map || f.Type().Key().Kind() != reflect.String {
+			continue
+		}
+		for _, k := range f.MapKeys() {
+			if !componentNameRe.MatchString(k.String()) {
+				out = append(out, k.String())
+			}
+		}
+	}
+	sort.Strings(out)
+	return out
 }
